@@ -503,8 +503,9 @@ def _apply_step(p: Proto, idx: int, step: str, uid: int) -> None:
         if step == "app1":
             node.fields.append(Field(TBase("uint", 5), f"new{uid}", nxt))
         elif step == "app2":
-            node.fields.append(Field(TBase("int", 13), f"new{uid}a", nxt))
-            node.fields.append(Field(TArray(TBase("uint", 3), 2), f"new{uid}b", nxt + 3))
+            # appended by NUMBER, but written at the top and in the middle of the message body: the wire follows the numbers
+            node.fields.insert(0, Field(TBase("int", 13), f"new{uid}a", nxt))
+            node.fields.insert((len(node.fields) + 1) // 2, Field(TArray(TBase("uint", 3), 2), f"new{uid}b", nxt + 3))
         elif step == "appmsg":
             sub = Message(f"New{uid}", [Field(TBase("uint", 9), "q", 1)], ext=True)
             # define the new message just before the first top-level definition that needs it
